@@ -117,7 +117,7 @@ def last_line_no_newline(run, idx, path, lineno):
     """line `lineno` was the unterminated last line of a file kept without a final newline when text was
     appended after it: it gained a terminating newline, the line diff does not match it with its previous
     self and the token diff of the hunk may credit it to whoever appended (known finding, what is left of
-    it after /repo fix 6966bc5b: a line that BECOMES the last line because the lines below it were deleted
+    it after /repo fix 2c591e34: a line that BECOMES the last line because the lines below it were deleted
     keeps its attribution and is no longer excused here)"""
     files = run.commits[idx][1]
     try:
